@@ -23,16 +23,20 @@ import stixgen
 import tr_callsites
 
 MANIFEST = {
-    "text": "PROVED (Coq, closed, Props/C14.v 21 theorems) over the call-site table REGENERATED from the ast of /repo on every "
+    "text": "PROVED (Coq, closed, Props/C14.v 22 theorems) over the call-site table REGENERATED from the ast of /repo on every "
             "run (tr_callsites; finite table = the quantifier, vm_compute lifted by forallb_forall + a closed-set invariant, so "
             "call chains of any length incl. recursion): every entry point with a version parameter -- parse, dict_to_stix2, "
             "parse_observable, Environment/workbench.parse, workbench.save, MemoryStore/Source/Sink construction, add, "
             "load_from_file, FileSystemSource/Store get/all_versions/query, FileSystemSink/Store add, the TAXII source/sink/store "
             "-- hands exactly its own version argument to every activation of the parser it reaches; interoperability and "
             "allow_custom never derive from it (symbolically and on concrete arguments); the enumerated entry points are in the "
-            "table and each reaches the parser; the one-site TAXII repair is the identity now (taxii_single_deviation).  For ALL "
-            "inputs: detect_spec_version recognises every shape the serialiser emits, any bundle nesting, any registry "
-            "(detect_own_output); strict id acceptance under 2.0 implies any version; with the canonical-text check strict "
+            "table and each reaches the parser; the one-site TAXII repair is the identity now (taxii_single_deviation).  For all "
+            "jvalue: detect_spec_version returns V on every shape of the hand-written relation `emitted V` (2.0 SCO/object/"
+            "bundle, 2.1 object/SCO/bundle of emitted members at any nesting; for 2.0 objects only when the type is NOT "
+            "registered as a 2.1 observable; the member-less 2.1 bundle only in the repaired detect) for any registry "
+            "(detect_own_output); the excluded collision is a refuted witness "
+            "(custom_20_object_named_like_21_observable_refuted), built-in types never collide (builtin_registries_separate); "
+            "strict id acceptance under 2.0 implies any version; with the canonical-text check strict "
             "acceptance implies relaxed acceptance for every text; canonical text of every 128-bit value is read back exactly "
             "(strict_accepts_canonical).  Refuted witnesses on frozen excerpts of the pinned tables (positional store call "
             "sites, TAXII all_versions).  Props/C14Schema.v: Model/Schema.v detect_version agrees with Model/VersionDetect.v "
@@ -47,7 +51,11 @@ MANIFEST = {
             "code on generated inputs, variants (two detect repairs, canonical-text id check, regex end, TAXII sink dict "
             "branch) detected at run time.  ORACLE-ONLY: same outcome as a direct parse with the entry's own switches; result "
             "class registered for the named version; library output keeps its class without a version; history independence "
-            "(answer does not depend on an earlier question about the same id; confirmed in a fresh interpreter).  The TAXII "
+            "(answer does not depend on an earlier question about the same id; confirmed in a fresh interpreter); mixed-version "
+            "stores read back without a version.  `emitted` is NOT connected by a theorem to the serialiser model of the schema "
+            "family: 'content the library produced' rests on that relation plus the own-output oracle (real serialisations of "
+            "every class of both versions, through every route).  'Honoured / same strictness' in the theorems means argument "
+            "forwarding in the static table.  The TAXII "
             "sink's Bundle wrapping is outside the table (known finding C14-taxii-sink-bundle-wrap-reinterprets).  ASSUMED: "
             "control flow inside a def is over-approximated (every call site taken); what the classes do with the switches "
             "after obj_class(allow_custom=.., interoperability=.., **data) is C02-C04's subject; text outside printable ASCII "
@@ -68,6 +76,7 @@ FINDING_POSITIONAL = "C14-store-call-sites-positional-version"
 FINDING_EMPTY_BUNDLE = "C14-empty-21-bundle-not-detected"
 FINDING_TAXII_ALL_VERSIONS = "C14-taxii-all-versions-first-parse-unversioned"
 FINDING_TAXII_SINK_DICT = "C14-taxii-sink-add-dict-ignores-version"
+FINDING_COLLISION = "C14-custom-20-object-named-like-21-observable"
 FINDING_TAXII_SINK_WRAP = "C14-taxii-sink-bundle-wrap-reinterprets"
 
 ZERO = "00000000-0000-0000-0000-000000000000"
@@ -837,6 +846,20 @@ def check(run):
     order_oracle(run, probes[:n_plain])
 
     _tick(run, 'order')
+    # ---- outside the domain of `emitted`: a custom 2.0 object and a custom 2.1 observable of the same name ----------
+    col = common.run_impl("c14_impl", [{"op": "collide", "name": "x-c14-collide"}], procs=1)[0]
+    run.count({"collide": 1}, nontrivial=True)
+    run.coverage["collision_probe"] = {k: col[k] for k in ("before", "after", "after_named_20")}
+    if col["before"][:2] != ["ok", "same-class"] or col["after_named_20"][:2] != ["ok", "same-class"]:
+        run.violations.append(Violation(
+            "a custom 2.0 object serialised as %s is not recognised as its own class: without a version %s, with version='2.0' %s"
+            % (col["text"][:120], col["before"], col["after_named_20"]), {"kind": "collide", "name": "x-c14-collide"}, finding=None))
+    elif col["after"][:2] != ["ok", "same-class"]:
+        run.violations.append(Violation(
+            "a custom 2.0 object serialised as %s, handed back without a version once a custom 2.1 observable of the same type name "
+            "is registered: %s" % (col["text"][:120], short(col["after"]) if col["after"][0] == "exc" else col["after"]),
+            {"kind": "collide", "name": "x-c14-collide"}, finding=FINDING_COLLISION))
+
     # ---- mixed-version stores read back without a version ----------------------------------------------------------
     mixed_oracle(run, probes[:n_plain])
     _tick(run, 'mixed')
@@ -1239,6 +1262,16 @@ def replay(payload):
             print("  the content was interpreted as version %s, not the version named (%s)" % (out[-1], v))
             bad = True
         if bad:
+            print("VIOLATION property=C14 replay=(given)")
+            return 1
+        print("no violation on this input")
+        return 0
+    if r.get("kind") == "collide":
+        col = common.run_impl("c14_impl", [{"op": "collide", "name": r["name"]}], procs=1)[0]
+        print("replay: custom 2.0 object %s" % col["text"][:200])
+        print("  handed back without a version: %s; after a custom 2.1 observable of the same name is registered: %s; "
+              "then with version='2.0': %s" % (col["before"], col["after"], col["after_named_20"]))
+        if not (col["before"][:2] == col["after"][:2] == col["after_named_20"][:2] == ["ok", "same-class"]):
             print("VIOLATION property=C14 replay=(given)")
             return 1
         print("no violation on this input")
